@@ -475,6 +475,15 @@ fn gen_tree(t: &mut Tape, state: usize, nq: usize, max_depth: usize, protect: us
         let j = t.below(i + 1);
         perm.swap(i, j);
     }
+    // tied leaves: several leaves may name the same PDF (a legal tree; the PDFs that lose their leaf
+    // simply stay unused)
+    if nleaves >= 3 && t.chance(0.3) {
+        for _ in 0..t.urange(1, 3) {
+            let j = t.urange(1, nleaves - 1);
+            let i = t.below(j);
+            perm[j] = perm[i];
+        }
+    }
     let extra = t.below(3); // unused PDFs at the end
     let npdf = nleaves + extra;
     let mut next_leaf = 0;
